@@ -34,9 +34,9 @@ pub mod worker;
 
 pub fn evidence_rule(prop: &str) -> String {
     match prop {
-        "C03" => "Seeded jobs (corpus roots under random knobs, token-level mutants incl. non-ASCII insertions, generated command lines). Per job: one fault-free run, then EVERY single permanent fault on every path the fault-free run touched (inputs x {Missing, Unreadable, ReadError}, outputs x {Unwritable, WriteError}; Tier B: the errno variants at the syscall seam plus masked kinds). evaluations = plan/process executions. A baseline is non-trivial iff it read >=1 input file; a fault run is non-trivial iff its fault actually fired. distinct_nontrivial = distinct (job digest) baselines + distinct (job digest, path, kind) fired faults.".to_string(),
-        "C10" => "Seeded simulated runs: 3-10 jobs over 1-4 threads with simulator-chosen hash keys, I/O-granular interleaving, server reuse, clock script; each job's record compared with the same job alone in the canonical environment (keys=0, fresh thread, fresh server, t0). evaluations = job executions compared. Non-trivial iff the job's record has >=2 hash-order-sensitive items (symbols/diagnostics/format parameters/defines) AND its environment differed from the reference in >=1 dimension; distinct by (job digest, environment digest).".to_string(),
-        "C14" => "Seeded disk images + inclusion graphs + path spellings + containers + ranges + single read faults, rendered to real source files; safety invariants on the access log (confinement, termination, read-exactness) plus a reference include-expander written from the property statement. evaluations = cases executed. Non-trivial iff the case has >=1 inclusion edge or inclusion-function call that reached the disk; distinct by case digest.".to_string(),
+        "C03" => "Seeded jobs (corpus roots under random knobs, token-level mutants incl. non-ASCII insertions and degenerate literals, generated programs of which about half assemble, generated command lines in short and long spelling, inclusion-heavy trees of the C14 generator). Per job: one fault-free run, then EVERY single permanent fault on every path the fault-free run touched (inputs x {Missing, Unreadable, ReadError}, outputs x {Unwritable, WriteError}; Tier B: the errno variants at the syscall seam plus masked kinds). evaluations = plan/process executions. A baseline is non-trivial iff it read >=1 input file; a fault run is non-trivial iff its fault actually fired. distinct_nontrivial = distinct (job digest) baselines + distinct (job digest, path, kind) fired faults.".to_string(),
+        "C10" => "Seeded simulated runs: 3-10 jobs over 1-4 threads with simulator-chosen hash keys, I/O-granular interleaving, server reuse, handle layout, environment variables, clock script, long histories, a job right after its failing twin (the same job with one injected error or I/O fault), several assemblies through the real FileServerReal; each job's record compared with the same job alone in the canonical environment (keys=0, fresh thread, fresh server, t0). evaluations = job executions compared. Non-trivial iff the job's record has >=2 hash-order-sensitive items (symbols/diagnostics/format parameters/defines) AND its environment differed from the reference in >=1 dimension; distinct by (job digest, environment digest).".to_string(),
+        "C14" => "Seeded disk images + inclusion graphs + path spellings + containers + ranges + single read faults, rendered to real source files; safety invariants on the access log (confinement, termination, read-exactness) plus a reference include-expander written from the property statement, plus the slash-twin relation (one case in five executed again with every separator turned into the other style). evaluations = cases executed. Non-trivial iff the case has >=1 inclusion edge or inclusion-function call that reached the disk; distinct by case digest.".to_string(),
         _ => String::new(),
     }
 }
